@@ -185,9 +185,12 @@ public:
         bool success = false;
         {
             page_allocator_type page_allocator(allocator);
+            // After a failed page allocation the page list ends in an invalid page (see invalidate_page):
+            // the entry of the push that failed does not exist at all.
+            bool valid_page = is_valid_page(p);
             micro_queue_pop_finalizer<self_type, value_type, page_allocator_type> finalizer(*this, page_allocator,
-                k + queue_rep_type::n_queue, index == items_per_page - 1 ? p : nullptr );
-            if (p->mask.load(std::memory_order_relaxed) & (std::uintptr_t(1) << index)) {
+                k + queue_rep_type::n_queue, valid_page && index == items_per_page - 1 ? p : nullptr );
+            if (valid_page && (p->mask.load(std::memory_order_relaxed) & (std::uintptr_t(1) << index))) {
                 success = true;
                 assign_and_destroy_item(dst, *p, index);
             } else {
